@@ -15,6 +15,7 @@ RULE = ("case = messy structure (<=150 atoms; full-rank cell with any pbc, or no
         "bond_threshold, min_coverage); distinct = SHA-1 of the descriptor; non-trivial = the independent dimensionality of the wrapped structure is 2 "
         "(the only cases that reach the region search)")
 ASSUMPTIONS = [
+    "resource bound: structures whose longest periodic cell vector exceeds 60x the smallest periodic cell height (strongly sheared descriptions of a small lattice) are discarded and counted - MatID needs gigabytes for them and a memory kill is not a verdict",
     "expected class from an independent dimensionality oracle (vlib/oracles/netrank.py) on the wrapped structure with covalent radii and the classifier's cluster_threshold",
     "cases with a bond within 1e-7 of the threshold or with rank over Q != rank over GF(2) are discarded and counted",
     "domain: cell of non-zero volume, or entirely non-periodic (the classifier's documented ValueError for zero-volume periodic cells is outside the property)",
@@ -71,6 +72,9 @@ def run_case(desc):
     n = len(s)
     pbc = np.asarray(s.get_pbc())
     cell = np.asarray(s.get_cell())
+    if messy.too_skewed(s):
+        out.discard = "resource-bound:strongly-sheared-cell"
+        return out
     if pbc.any() and abs(np.linalg.det(cell)) < 1e-6:
         out.discard = "outside-domain:zero-volume-periodic"
         return out
